@@ -125,7 +125,10 @@ class C(Check):
         cases, meta = [], {}
         for k in range(self.q(2500, 80000)):
             nin = rng.choice((1, 2, 2, 3))
-            syms = SYMS[:nin]
+            names = NAMES
+            if rng.random() < 0.3:
+                names = rng.choice((['x0', 'x1', 'x2'], ['x1', 'x0', 'y'], ['x2', 'y', 'x0']))      # the names CSE gives its temporaries
+            syms = [('sym', n) for n in names[:nin]]
             nout = rng.choice((1, 2, 3, 4))
             shared_sub = smooth(rng, syms, 2)
             outs = []
@@ -143,7 +146,8 @@ class C(Check):
             stmts += [('emit', vec('$o%d' % i for i in range(nout))),
                       ('emit', ('lambda_seq', 'real', initA(False)) + calls),
                       ('emit', ('lambda_seq', 'real', initA(True)) + calls),
-                      ('emit', ('lambda_seq', 'real', initA(False), calls[0], initB, calls[0], initA(False), calls[0], initA(True), calls[0]))]
+                      ('emit', ('lambda_seq', 'real', initA(False), calls[0], initB, calls[0], initA(False), calls[0], initA(True), calls[0])),
+                      ('emit', ('lambda_seq', 'real', initA(True), calls[0], initA(False), calls[0], ('init', vec(syms), vec(outsB), True), calls[0], initA(False), calls[1]))]
             cplx = rng.random() < 0.3
             cvecs = None
             if cplx:
@@ -151,11 +155,11 @@ class C(Check):
                 stmts.append(('emit', ('lambda_seq', 'complex', initA(False)) + tuple(('call',) + tuple(x for p in v for x in p) for v in cvecs)))
             cid = 'k%d' % k
             cases.append((cid, stmts))
-            meta[cid] = (nin, nout, vecs, cvecs, stmts)
+            meta[cid] = (nin, nout, vecs, cvecs, stmts, names)
         res, reps = run_cases('asan', cases, tag='c13', timeout=60)
         check_process_reports(self, reps)
         self.seen = set()
-        for cid, (nin, nout, vecs, cvecs, stmts) in meta.items():
+        for cid, (nin, nout, vecs, cvecs, stmts, names) in meta.items():
             r = res.get(cid)
             if r is None:
                 self.inconclusive += 1
@@ -171,6 +175,7 @@ class C(Check):
             if r.status != 'ok' or st is None or st.st != 'ok':
                 self.count('declined-construction')
                 continue
+            self._names = names
             trees = [x['t'] for x in st.v['e']]
             strs = [x['s'] for x in st.v['e']]
             plain = r.s(base + 1)
@@ -218,9 +223,15 @@ class C(Check):
                     self.viol(dict(clause='reinit', which='A after B'), dict(program=prog[:nout] + [prog[base + 3]], fresh=[repr(x) for x in got[0]], first=[repr(x) for x in calls[0]], after_detour=[repr(x) for x in calls[2]], config='asan'))
                 if cse is not None and cse.st == 'ok' and not _same(calls[3], [h2f(x) for x in cse.v['calls'][0]]):
                     self.viol(dict(clause='reinit', which='A with cse after A without'), dict(program=prog[:nout] + [prog[base + 3]], config='asan'))
+            hist2 = r.s(base + 4)
+            if hist2 is not None and hist2.st == 'ok':
+                calls2 = [[h2f(x) for x in call] for call in hist2.v['calls']]
+                self.evaluations += 1
+                if not _same(calls2[1], got[0]) or not _same(calls2[3], got[1]):
+                    self.viol(dict(clause='reinit', which='A without cse after an init with cse'), dict(program=prog[:nout] + [prog[base + 4]], fresh=[repr(x) for x in got[0]], after_cse_init=[repr(x) for x in calls2[1]], config='asan'))
             # (d) complex mode
             if cvecs is not None:
-                cs = r.s(base + 4)
+                cs = r.s(base + 5)
                 if cs is not None and cs.st == 'ok':
                     for vi, v in enumerate(cvecs):
                         for oi, t in enumerate(trees):
@@ -234,7 +245,7 @@ class C(Check):
                             if not (mpmath.isfinite(gz.real) and mpmath.isfinite(gz.imag)):
                                 continue
                             if abs(gz - val) > mpf(10) ** -10 * max(1, abs(val)) + slack:
-                                self.viol(dict(clause='value-complex', top=t[0]), dict(program=prog[:nout] + [prog[base + 4]], output=strs[oi], inputs=str(v), library=str(gz), reference=mpmath.nstr(val, 17), config='asan'))
+                                self.viol(dict(clause='value-complex', top=t[0]), dict(program=prog[:nout] + [prog[base + 5]], output=strs[oi], inputs=str(v), library=str(gz), reference=mpmath.nstr(val, 17), config='asan'))
                 else:
                     self.count('complex-declined:' + str(getattr(cs, 'ty', '')).split('::')[-1])
             if len(self.samples) < 4 and nout >= 2 and special:
@@ -245,7 +256,7 @@ class C(Check):
         """(value, slack) or None: value of the output tree at the exact input doubles; slack from the change under a 1e-13 relative input perturbation"""
         try:
             with mp.workdps(50):
-                env = {n: (x if cplx else mpf(x)) for n, x in zip(NAMES, v)}
+                env = {n: (x if cplx else mpf(x)) for n, x in zip(self._names, v)}
                 val = self._ev(tree, env, real=not cplx)
                 if val is None:
                     return None
